@@ -1385,3 +1385,294 @@ class MonitorOracle:
             elif tc:
                 self.win["tc"] += 1
         return msg
+
+
+# ---------------------------------------------------------------------------------------------------------------
+# Pulse spacing as a function of the clock ratio (pulsesync_spacing / pulsesync_spacing_tight)
+
+class PulseGapInst(PulseSyncInst):
+    """PulseSynchronizer under drift bound R (at most R i-only instants in a row) with pulses at the MINIMUM spacing
+    the theorem allows: R + 1 pulse-free i-edges between two pulses."""
+    def __init__(self, name, R):
+        PulseSyncInst.__init__(self, name)
+        self.R = R
+        self._clk = None
+        self._free = 0
+
+    def gen(self, rng, t):
+        if t == 0 or self._clk is None:
+            self._clk = BoundedRatioClocks(rng, self.R)
+            self._free = self.R + 1
+        ti, to = self._clk.next(rng)
+        i = 0
+        if ti:
+            if self._free >= self.R + 1 and rng.random() < 0.8:
+                i, self._free = 1, 0
+            else:
+                self._free += 1
+        return (ti, to, rng.randint(0, 1), i)
+
+    def monitor(self):
+        return PulseGapMonitor()
+
+
+class PulseGapMonitor:
+    """Exactly-once, model independent: output pulses never exceed input pulses, at most 3 are in flight, and
+    three o-edges after the last input pulse every pulse has come out."""
+    def __init__(self):
+        self.sent = self.got = 0
+        self.o_since = 0
+
+    def observe(self, letter, outs):
+        ti, to, m, i = letter
+        if to and outs[0]:
+            self.got += 1
+        if self.got > self.sent:
+            return "output pulse without input pulse (%d > %d)" % (self.got, self.sent)
+        if self.o_since >= 3 and self.got != self.sent:
+            return "input pulse lost: %d sent, %d seen, %d o-edges after the last one" % (self.sent, self.got, self.o_since)
+        if to:
+            self.o_since += 1
+        if ti and i:
+            self.sent += 1
+            self.o_since = 0
+        if self.sent > self.got + 3:
+            return "more than 3 pulses in flight (%d sent, %d seen)" % (self.sent, self.got)
+        return None
+
+
+# ---------------------------------------------------------------------------------------------------------------
+# Per-domain resets (afStepR2) and the crossing with REAL reset synchronisers (crStep, cdc_sync_rst_sim)
+
+class _Rst2Wrap(Module):
+    """Plain ClockDomainCrossing (no common reset): each side is reset by its own user domain's reset."""
+    def __init__(self, layout, depth, buffered, cd_from, cd_to):
+        from litex.soc.interconnect import stream
+        self.clock_domains.cd_a = ClockDomain(cd_from)
+        self.clock_domains.cd_b = ClockDomain(cd_to)
+        self.submodules.cdc = stream.ClockDomainCrossing(layout, cd_from=cd_from, cd_to=cd_to, depth=depth,
+                                                         buffered=buffered)
+        self.sink, self.source = self.cdc.sink, self.cdc.source
+        self.rst_a, self.rst_b = self.cd_a.rst, self.cd_b.rst
+
+
+class AFifoRst2Inst(AFifoInst):
+    """letter : (tw, tr, mw, mr, sink.valid, sink.tok, source.ready, rst_from, rst_to) — the two levels are
+       independent and go to the model separately (`afifo_rst2`).  No oracle: one-sided resets break the
+       crossing by design (that is why with_common_rst exists); model/code agreement only."""
+    FMT = AFifoInst.FMT + ", rst(cd_from), rst(cd_to)"
+
+    def __init__(self, name, layout, k, buffered=False, cd_from="usb", cd_to="eth"):
+        w = _Rst2Wrap(layout, 1 << k, buffered, cd_from, cd_to)
+        AFifoInst.__init__(self, name, w, k, buffered=buffered, cd_w=cd_from, cd_r=cd_to, layout=layout)
+        self.lean_open = ("afifo_rst2_buffered %d" if buffered else "afifo_rst2 %d") % k
+        self._left = [0, 0]
+
+    def apply(self, letter):
+        self.netlist.set(self.module.rst_a, letter[7])
+        self.netlist.set(self.module.rst_b, letter[8])
+        AFifoInst.apply(self, letter)
+
+    def nontrivial(self, letter, outs):
+        return AFifoInst.nontrivial(self, letter, outs) or bool(letter[7] or letter[8])
+
+    def gen(self, rng, t):
+        if t == 0:
+            self._left = [0, 0]
+        base = AFifoInst.gen(self, rng, t)
+        for j in (0, 1):
+            if self._left[j] > 0:
+                self._left[j] -= 1
+            elif rng.random() < 0.01:
+                self._left[j] = rng.randint(1, 6)
+        return tuple(base) + (1 if self._left[0] else 0, 1 if self._left[1] else 0)
+
+    def monitor(self):
+        return _NoMonitor()
+
+
+class _ArsRec:
+    """special_overrides entry for AsyncResetSynchronizer: the vendor implementation of /repo
+    (XilinxAsyncResetSynchronizerImpl) is built for the very (cd, async_reset) the crossing passes and kept for
+    interpretation; nothing is lowered into the netlist, so `cd.rst` stays an input that the harness drives with
+    the interpreted flop output."""
+    def __init__(self):
+        self.items = []
+
+    def lower(self, dr):
+        from litex.build.xilinx.common import XilinxAsyncResetSynchronizerImpl
+        self.items.append((dr.cd, dr.async_reset, XilinxAsyncResetSynchronizerImpl(dr.cd, dr.async_reset)))
+        return Module()
+
+
+class _FdpeChain:
+    """Interpreter for the FDPE instances of one synchroniser.  Primitive semantics (trusted): Q := 1 while PRE is
+    high (asynchronously); otherwise Q := D at a rising edge of C when CE; power-up value INIT."""
+    def __init__(self, cd, async_reset, impl):
+        from migen.fhdl.specials import Instance
+        self.cd, self.async_reset = cd, async_reset
+        self.ffs = []
+        for sp in impl._fragment.specials:
+            if isinstance(sp, Instance):
+                if sp.of != "FDPE":
+                    raise RuntimeError("reset synchroniser contains a %s instance the interpreter does not know" % sp.of)
+                it = {}
+                for x in sp.items:
+                    it[x.name] = x.value if isinstance(x, Instance.Parameter) else x.expr
+                self.ffs.append(it)
+        if impl._fragment.comb or impl._fragment.sync:
+            raise RuntimeError("reset synchroniser contains logic besides its flops")
+        self.q = {id(ff["Q"]): int(getattr(ff["INIT"], "value", ff["INIT"])) for ff in self.ffs}
+
+    def _val(self, ev, e):
+        if isinstance(e, int):
+            return e
+        if id(e) in self.q:
+            return self.q[id(e)]
+        return ev.eval(e)
+
+    def preset(self, ev):
+        for ff in self.ffs:
+            if self._val(ev, ff["PRE"]) & 1:
+                self.q[id(ff["Q"])] = 1
+
+    def out(self):
+        return self.q.get(id(self.cd.rst), 0)
+
+    def edge(self, ev):
+        new = {}
+        for ff in self.ffs:
+            if self._val(ev, ff["PRE"]) & 1:
+                new[id(ff["Q"])] = 1
+            elif self._val(ev, ff["CE"]) & 1:
+                new[id(ff["Q"])] = self._val(ev, ff["D"]) & 1
+        self.q.update(new)
+
+
+class _SyncNetlist(CdcNetlist):
+    def __init__(self, module, clocks):
+        from migen.genlib.resetsync import AsyncResetSynchronizer
+        self.rec = _Recorder()
+        self.ars = _ArsRec()
+        Netlist.__init__(self, module, clocks=clocks,
+                         special_overrides={MultiReg: self.rec, AsyncResetSynchronizer: self.ars})
+        self.mr = dict(self.rec.impl)
+        self.changing_samples = 0
+        self.pending_inputs = []
+        regs = set(self.regs)
+        self.src_is_reg = all(isinstance(impl.i, Signal) and impl.i in regs for _, impl in self.mr.values())
+        self.chains = [_FdpeChain(*it) for it in self.ars.items]
+        self._init_q = [dict(c.q) for c in self.chains]
+
+    def snapshot(self):
+        return (Netlist.snapshot(self), [dict(c.q) for c in self.chains])
+
+    def restore(self, snap):
+        Netlist.restore(self, snap[0])
+        for c, q in zip(self.chains, snap[1]):
+            c.q = dict(q)
+
+
+class AFifoSyncRstInst(AFifoRstInst):
+    """ClockDomainCrossing(with_common_rst=True) with the REAL wiring of its two AsyncResetSynchronizer specials and
+    the REAL vendor implementation (interpreted FDPE flops) in place of the simulator's combinational stand-in.
+    letter : (tw, tr, mw, mr, sink.valid, sink.tok, source.ready, rst_from, rst_to)
+    outputs: [sink.ready, source.valid, source.tok, reset of the private write domain, ... of the read domain,
+              level of the async_reset expression handed to the synchronisers]"""
+    FMT = AFifoInst.FMT + ", rst(cd_from), rst(cd_to)"
+
+    def __init__(self, name, layout, k, buffered=False, cd_from="usb", cd_to="eth"):
+        _orig = CdcNetlist
+        globals()["CdcNetlist"] = _SyncNetlist
+        try:
+            AFifoRstInst.__init__(self, name, layout, k, buffered=buffered, cd_from=cd_from, cd_to=cd_to,
+                                  long_resets=False)
+        finally:
+            globals()["CdcNetlist"] = _orig
+        self.lean_open = ("cdc_sync_buffered %d" if buffered else "cdc_sync %d") % k
+        self.qual = [None, None, 1, None, None, None]
+        n = self.netlist
+        self.ch_w = next((c for c in n.chains if c.cd.name == self.int_w), None)
+        self.ch_r = next((c for c in n.chains if c.cd.name == self.int_r), None)
+        if self.ch_w is None or self.ch_r is None or len(n.chains) != 2:
+            raise RuntimeError("with_common_rst crossing does not put one reset synchroniser on each private domain")
+        self._a = 0
+
+    def apply(self, letter):
+        n = self.netlist
+        n.set(self.module.rst_a, letter[7])
+        n.set(self.module.rst_b, letter[8])
+        n.settle()
+        for c in n.chains:
+            c.preset(n.ev)
+            n.set(c.cd.rst, c.out())
+        self._a = n.ev.eval(self.ch_w.async_reset) & 1
+        AFifoInst.apply(self, letter)
+
+    def sample(self):
+        # last output: the level of the async_reset expression the crossing really hands to its synchronisers; the
+        # model echoes the harness's own rst_from | rst_to, so a wrong reset wiring shows as a disagreement
+        return AFifoInst.sample(self) + [self.ch_w.out(), self.ch_r.out(), self._a]
+
+    def clocks(self, letter):
+        tw, tr = letter[0], letter[1]
+        n = self.netlist
+        for c, t in ((self.ch_w, tw), (self.ch_r, tr)):
+            if t:
+                c.edge(n.ev)
+        return AFifoRstInst.clocks(self, letter)
+
+    def model_letter(self, letter):
+        return list(letter[:7]) + [1 if (letter[7] or letter[8]) else 0]
+
+    def gen(self, rng, t):
+        if t == 0:
+            self._left = [0, 0]
+        base = AFifoInst.gen(self, rng, t)
+        for j in (0, 1):
+            if self._left[j] > 0:
+                self._left[j] -= 1
+            elif rng.random() < 0.006:
+                self._left[j] = rng.choice((1, 1, 2, 3, 8))
+        return tuple(base) + (1 if self._left[0] else 0, 1 if self._left[1] else 0)
+
+    def monitor(self):
+        return _SyncRstScoreboard(self.depth + (1 if self.buffered else 0))
+
+
+class _SyncRstScoreboard(CrossScoreboard):
+    """cdc_sync_rst_sim as an oracle, independent of the model: after a reset pulse that covered at least one edge of
+    each clock, tokens accepted once the write domain is released come out exactly once and in order once the read
+    domain is released (hand-shakes while the respective domain is in reset are not counted).  After a shorter
+    pulse nothing is claimed until the next good one."""
+    def __init__(self, capacity):
+        CrossScoreboard.__init__(self, capacity)
+        self.armed = True           # power-up: flops INIT = 1, FIFO in its initial state
+        self.in_pulse = False
+        self.cov = [False, False]
+
+    def observe(self, letter, outs):
+        tw, tr = letter[0], letter[1]
+        a = letter[7] or letter[8]
+        rst_w, rst_r = outs[3], outs[4]
+        if a:
+            if not self.in_pulse:
+                self.in_pulse, self.cov = True, [False, False]
+            self.cov[0] |= bool(tw)
+            self.cov[1] |= bool(tr)
+            self.flush()
+            return None
+        if self.in_pulse:
+            self.in_pulse = False
+            self.armed = self.cov[0] and self.cov[1]
+            self.flush()
+        if not self.armed:
+            return None
+        l = list(letter[:7])
+        o = list(outs[:3])
+        if rst_w:
+            l[4] = 0
+        if rst_r:
+            l[6] = 0
+            o[1] = 0
+        return CrossScoreboard.observe(self, tuple(l), o)
